@@ -98,6 +98,7 @@ func c04Try(t *engine.T, e c04Entry, kind string, in []byte) {
 		return fmt.Sprintf("%s input (%s, %d bytes) hex=%s", e.name, kind, len(in), hex.EncodeToString(trim(in, 256)))
 	})
 	key := func(sym string) string { return "C04|" + e.name + "|" + kind + "|" + sym }
+	chain := kind == "seed" || strings.HasPrefix(kind, "token")
 	data := append([]byte(nil), in...) // decoders may keep or scribble on their input
 	var v any
 	before := c04Allocated()
@@ -129,15 +130,37 @@ func c04Try(t *engine.T, e c04Entry, kind string, in []byte) {
 			ap.IsNil(it)
 			ap.NotEmpty(it)
 			ap.ItemsEqual(it, it)
-			ap.MarshalJSON(it)
-			ap.GobEncode(it)
+			// codec chains: what the library writes for a decoded value is itself decoder input, in both codecs
+			// (for seeds and token-level deviations; byte-level deviations and truncations only re-encode)
+			j, jerr := ap.MarshalJSON(it)
+			g, gerr := ap.GobEncode(it)
 			t.Ops(5)
+			if chain {
+				if jerr == nil && len(j) > 0 {
+					ap.UnmarshalJSON(j)
+				}
+				if gerr == nil && len(g) > 0 {
+					if back, err := ap.GobDecode(g); err == nil && back != nil {
+						ap.MarshalJSON(back)
+					}
+				}
+				t.Ops(3)
+			}
 		}
+		isPtr := reflect.TypeOf(v).Kind() == reflect.Pointer
 		if m, ok := v.(json.Marshaler); ok {
-			m.MarshalJSON()
+			if j, err := m.MarshalJSON(); err == nil && len(j) > 0 && chain && isPtr {
+				if u, ok := reflect.New(reflect.TypeOf(v).Elem()).Interface().(json.Unmarshaler); ok {
+					u.UnmarshalJSON(j)
+				}
+			}
 		}
 		if g, ok := v.(gob.GobEncoder); ok {
-			g.GobEncode()
+			if b, err := g.GobEncode(); err == nil && len(b) > 0 && chain && isPtr {
+				if d, ok := reflect.New(reflect.TypeOf(v).Elem()).Interface().(gob.GobDecoder); ok {
+					d.GobDecode(b)
+				}
+			}
 		}
 		_ = fmt.Sprintf("%s %v %q %+v", v, v, v, v)
 		t.Ops(3)
@@ -179,7 +202,7 @@ func c04JSONSeeds(quick bool) (map[string][][]byte, [][]byte) {
 			universe.Saturated(s, universe.JSON, doc)
 		}
 	}
-	files, _ := filepath.Glob("/repo/tests/mocks/*.json")
+	files, _ := filepath.Glob(repoDir() + "/tests/mocks/*.json")
 	sort.Strings(files)
 	for _, f := range files {
 		if raw, err := os.ReadFile(f); err == nil {
@@ -242,6 +265,15 @@ func c04JSONSeeds(quick bool) (map[string][][]byte, [][]byte) {
 		add("interaction", []byte(`{"type":"Collection","items":[`+strings.Join(l, ",")+`],"to":[`+strings.Join(l, ",")+`]}`))
 		add("interaction", []byte(`[`+strings.Join(l, ",")+`]`))
 	}
+	// language maps whose keys are BCP 47 tags with several subtags, singletons, private use, and malformed tags
+	for _, tags := range []string{`"zh-Hant-TW":"a","en-x-pirate":"b"`, `"de-DE-u-co-phonebk":"a","x-klingon":"b","es-419":"c"`, `"a-b-c-d-e-f-g-h":"x","-":"y","--":"z","en-":"w","-en":"v","":"u"`,
+		`"und":"a","UND":"b","en_US":"c","EN-us":"d"`, `"zh-Hant-TW":"only"`} {
+		for _, term := range []string{"name", "summary", "content", "preferredUsername"} {
+			add("interaction", []byte(fmt.Sprintf(`{"type":"Person","id":"https://example.com/p",%q:{%s}}`, term+"Map", tags)))
+			add("interaction", []byte(fmt.Sprintf(`{"type":"Note",%q:{%s}}`, term, tags)))
+		}
+		add("interaction", []byte(fmt.Sprintf(`{"type":"Note","source":{"contentMap":{%s},"mediaType":"text/plain"}}`, tags)))
+	}
 	// odd shapes: every term of the vocabulary x values of the wrong JSON kind
 	terms := map[string]bool{}
 	for i := range universe.Structs {
@@ -279,7 +311,7 @@ func c04JSONSeeds(quick bool) (map[string][][]byte, [][]byte) {
 	return byOwner, all
 }
 
-var c04ScalarSeeds = []string{`"text"`, `"https://example.com/a"`, `["https://example.com/a","https://example.com/b"]`, `{"en":"a","fr":"b"}`, `{"-":"x"}`,
+var c04ScalarSeeds = []string{`{"zh-Hant-TW":"a","en-x-pirate":"b","de-DE-u-co-phonebk":"c"}`, `{"a-b-c-d-e":"x","--":"y","en-":"z"}`, `zh-Hant-TW`, `"en-x-pirate"`, `"text"`, `"https://example.com/a"`, `["https://example.com/a","https://example.com/b"]`, `{"en":"a","fr":"b"}`, `{"-":"x"}`,
 	`{"content":"x","mediaType":"text/plain"}`, `{"contentMap":{"en":"x"},"mediaType":"text/plain"}`, `{"id":"https://example.com/k","owner":"https://example.com/o","publicKeyPem":"p"}`,
 	`{"sharedInbox":"https://example.com/s","uploadMedia":{"id":"https://example.com/u","type":"Note"}}`, `42`, `-1`, `1e999`, `true`, `null`, `[]`, `{}`, `[[]]`, `[{"en":"x"},"y",3]`, `"é\n\""`,
 	`hello`, `"unterminated`, `en`, `"en"`, `text/html`, `"`, `""`, `"a"`, `{"en":{"deep":1}}`, `{"type":"Note","id":"https://example.com/n"}`}
@@ -603,7 +635,7 @@ func c04Audit(p *engine.Parent) error {
 		have[e.name] = true
 	}
 	fset := token.NewFileSet()
-	files, _ := filepath.Glob("/repo/*.go")
+	files, _ := filepath.Glob(repoDir() + "/*.go")
 	var gaps []string
 	found := 0
 	for _, f := range files {
